@@ -18,6 +18,8 @@ def run(chk):
     chk.configs = cfgs
     chk.rule("PIP.on-edge", "point-in-polygon routines (PointInPolygon, PointInOpPolygon): every cross product that decides a toggle is kept in a local that is tested for "
              "zero with IsOn returned - a point exactly on an edge is never classified by that edge's direction")
+    chk.rule("OWNER.reparent", "SetOwner executed on every ownership forest over four records: outrec ends up under new_owner, the forest stays acyclic, bystanders are "
+             "untouched and new_owner keeps its live ancestors (outrec's, when it hung below outrec) - no ring is cut loose to top level")
     chk.rule("OWNER.assigned", "AddLocalMinPoly / AddLocalMaxPoly: whatever GetPrevHotEdge returns, the ring's tentative owner is assigned (SetOwner, or nullptr when there "
              "is no hot edge to the left) on every path on which tree output is possible")
     chk.rule("LOOP.bound-live", "the output builders' index loops over outrec_list_ re-read its size in every iteration: rings that CleanCollinear splits off while "
@@ -46,6 +48,7 @@ def run(chk):
         e3.inside_vote_table(db, chk, cfg)
         e3.pip_on_edge_sites(db, chk, cfg)
         e10.rule_owner_assigned(db, chk, cfg)
+        e10.rule_owner_reparent(db, chk, cfg)
         from ..engines import e2_state as _e2, e10_pipeline as _e10
         if _e10.rule_bound_live(db, chk, cfg, lambda cls: _e2.E2(db, chk, cfg, cls)) < 4:
             from ..extract import AnalysisBroken as _AB
